@@ -585,6 +585,11 @@ func (o *c14Oracle) block(e *core.Engine) []core.Violation {
 			b.created = true
 			o.nCreated++
 			amt := c14Big(&m.InitialFunding)
+			if m.InitialFunding.Currency != "OLT" && amt.Sign() > 0 {
+				// escrow records, the funding goal, refunds and the distribution count OLT: a contribution named in another
+				// currency that is accepted is booked as the same number of OLT
+				vs = append(vs, o.mkTx(t, i, "funds-accounted", "contribution-in-foreign-currency", "PROPOSAL_CREATE succeeded with an initial funding of %s %s: proposal funds are accounted in OLT, what the proposer can get back (or what is distributed) is not what was contributed", amt, m.InitialFunding.Currency))
+			}
 			o.contribute(p, p.Proposer, amt, h)
 			contributed.Add(contributed, amt)
 		case action.PROPOSAL_FUND:
@@ -593,6 +598,9 @@ func (o *c14Oracle) block(e *core.Engine) []core.Violation {
 				break
 			}
 			amt := c14Big(&m.FundValue)
+			if m.FundValue.Currency != "OLT" && amt.Sign() > 0 {
+				vs = append(vs, o.mkTx(t, i, "funds-accounted", "contribution-in-foreign-currency", "PROPOSAL_FUND succeeded with %s %s: proposal funds are accounted in OLT, what the funder can get back (or what is distributed) is not what was contributed", amt, m.FundValue.Currency))
+			}
 			contributed.Add(contributed, amt)
 			p := o.props[string(m.ProposalId)]
 			if p == nil {
